@@ -85,7 +85,7 @@ theorem emit_flt (hw : FltWriter wr flt) (cfg : Cfg) (f : Bool) (st : PSt ω) :
       exact ⟨fun _ => rfl, fun h => absurd rfl h, fun h => h, Nat.le_refl _⟩
     | ok b =>
       simp only [hpk] at hres
-      by_cases ha : assertPanics cfg.v1shape f (st.buf.take cfg.bs).length st.n = true
+      by_cases ha : assertPanics cfg.v1shape cfg.assertExtra f (st.buf.take cfg.bs).length st.n = true
       · simp only [ha, if_true] at hres
         subst hres
         exact ⟨fun _ => rfl, fun h => absurd rfl h, fun h => h, Nat.le_refl _⟩
@@ -245,7 +245,7 @@ theorem emit_buf (cfg : Cfg) (f : Bool) (st : PSt ω) : (emitBlock wr cfg f st).
     | error e => simp only [hpk] at hres; subst hres; rfl
     | ok b =>
       simp only [hpk] at hres
-      by_cases ha : assertPanics cfg.v1shape f (st.buf.take cfg.bs).length st.n = true
+      by_cases ha : assertPanics cfg.v1shape cfg.assertExtra f (st.buf.take cfg.bs).length st.n = true
       · simp only [ha, if_true] at hres; subst hres; rfl
       · simp only [ha, Bool.false_eq_true, if_false] at hres
         cases he : Codec.encode wr cfg.pieces st.codec b with
